@@ -25,7 +25,7 @@ def variants(case, rng, tier):
 
 
 def gen(rng, tier):
-    nbase = 14 if tier == "quick" else 400
+    nbase = 24 if tier == "quick" else 400
     cases = []
     for i in range(nbase):
         base = G.gen_history(rng, "b%d" % i, profile=rng.choice(["mixed", "conflict"]), probe_p=0.25, gc_p=0.0,
